@@ -24,7 +24,9 @@ LEVEL_TEXT = ("PARTIAL. Proved for the model: every request of the dispatch tabl
               "t=relink with any to_dir=) whose addressed directory / mutable file is reached read-only, leaves the grid unchanged "
               "and is refused (except the mkdir forms "
               "answered with the URI of an already existing directory), for every grid, path and request; every cap string in "
-              "t=json / t=info / HTML listing / t=uri output for a node reached read-only is a read or verify cap. The web layer "
+              "t=json / t=info / HTML listing / t=uri output for a node reached read-only is a read or verify cap; the node the "
+              "gateway's node cache hands out for a cap has exactly that cap's authority, for every history of lookups and collections "
+              "(tied by a function-level comparison of create_node_from_uri histories). The web layer "
               "(3 500 lines) is NOT modelled beyond this table: the table was written by reading web/*.py and is tied to it only by "
               "the correspondence run (status, phase, resulting tree for random requests through read-only and writeable paths). "
               "The theorems are about the table with the proposed repair fixes/C41-mutable-upload-readonly-parent.diff; for the "
@@ -32,7 +34,9 @@ LEVEL_TEXT = ("PARTIAL. Proved for the model: every request of the dispatch tabl
 LEVEL_NOTE = ("Lean kernel + standard axioms for the table and node-layer model; hand-written table; deep-check / manifest / "
               "check-and-repair operations, when_done redirects, metadata (no-write), /uri unlinked creation, the private token "
               "area and HTML form details are outside the model (check&repair through read caps is only monitored).")
-RULE = ("seeded scenarios: one grid + real web resource tree, a random mixed-authority tree (mutable dirs linked by write and by read "
+RULE = ("a fixed corpus first (fixed tree, one request per known mechanism: repaired defect 9a727df, seeded changes C41-a/b/c, "
+        "through a read cap / below a read-only link / with the read-only link as last path element, plus the same shapes with "
+        "full authority; VERIF_CORPUS_ONLY=1 runs only this); then seeded scenarios: one grid + real web resource tree, a random mixed-authority tree (mutable dirs linked by write and by read "
         "cap, immutable dir, CHK/LIT files, SDMF/MDMF files by write and read cap, verify caps) and a stream of random requests "
         "(PUT/POST t=…/DELETE with every t of the table, replace=true/false/only-files, format=sdmf, paths of length 0..4 with "
         "existing and missing names) addressed through read-only/verify caps, through paths crossing a read-only link, and through "
@@ -326,6 +330,102 @@ def build_world(ctx, rng, rt, g):
     fill(other, rng.randrange(0, 3))
     rt.settle()
     return W
+
+
+def build_fixed_world(rt, g):
+    """The corpus tree.  Addresses: 0 root, 1 A, 2 B, 3 other, 4 D, 5 F (CHK), 6 L (LIT), 7 M (SDMF), 8 M2 (MDMF), 9 I (immutable dir)
+       root : n1 -> A by READ cap, n2 -> A by write cap, n3 -> M (rw), n4 -> F, n5 -> I
+       A    : n1 -> B (rw), n2 -> F, n3 -> L, n4 -> M (rw), n5 -> B by READ cap
+       B    : n1 -> F, n2 -> M2 (rw)        other : n1 -> D (rw)        D : empty        I : n1 -> F"""
+    from allmydata.immutable import upload
+    from allmydata.mutable.publish import MutableData
+    from allmydata.interfaces import SDMF_VERSION, MDMF_VERSION
+    c = g.clients[0]
+    W = World(rt, c)
+    root = rt.wait(c.create_dirnode())
+    A = rt.wait(c.create_dirnode())
+    B = rt.wait(c.create_dirnode())
+    other = rt.wait(c.create_dirnode())
+    D = rt.wait(c.create_dirnode())
+    F = c.create_node_from_uri(rt.wait(c.upload(upload.Data(bytes(range(90)), convergence=b"c41"))).get_uri())
+    L = c.create_node_from_uri(rt.wait(c.upload(upload.Data(b"tiny", convergence=b"c41"))).get_uri())
+    M = rt.wait(c.create_mutable_file(MutableData(b"mutable one"), version=SDMF_VERSION))
+    M2 = rt.wait(c.create_mutable_file(MutableData(b"mutable two"), version=MDMF_VERSION))
+    I = rt.wait(c.create_immutable_dirnode({"n1": (F, {})}))
+    for n in (root, A, B, other, D, F, L, M, M2, I):
+        W.register(n)
+
+    def rw(n):
+        return (n.get_uri(), n.get_readonly_uri())
+
+    def ro(n):
+        return (None, n.get_readonly_uri())
+    rt.wait(root.set_children({"n1": ro(A), "n2": rw(A), "n3": rw(M), "n4": ro(F), "n5": ro(I)}))
+    rt.wait(A.set_children({"n1": rw(B), "n2": ro(F), "n3": ro(L), "n4": rw(M), "n5": ro(B)}))
+    rt.wait(B.set_children({"n1": ro(F), "n2": rw(M2)}))
+    rt.wait(other.set_children({"n1": rw(D)}))
+    rt.settle()
+    # nodes built from the WRITE caps stay alive in the gateway for the whole corpus, as they would while an operation
+    # started with the write cap (deep-check, manifest, a slow upload) is in flight
+    W.alive = [c.create_node_from_uri(n.get_uri()) for n in (root, A, B, other, D, M, M2)]
+    return W
+
+
+def corpus_script():
+    """One minimal request per known mechanism (seeded changes C41-a/b/c, the repaired defect 9a727df), each through a read cap,
+    through a path below a read-only link and with the read-only link as last path element; then the same shapes with full
+    authority (these succeed).  ("id", request, expected class) or ("get", root, auth, path, kind)."""
+    R, A, B, OTHER, D, F, L, M, M2, I = range(10)
+
+    def q(cid, cls, root, auth, path, meth, t, **kw):
+        return (cid, dict(root=root, auth=auth, path=path, meth=meth, t=t, **kw), cls)
+    return [
+        # --- repaired defect 9a727df: new name + mutable format (PlaceHolderNodeHandler -> ReplaceMeMixin)
+        q("fix-9a727df/put-new-sdmf", "root-ro", A, "r", ["n8"], "PUT", "", fmt="sdmf"),
+        q("fix-9a727df/post-upload-new-mdmf", "root-ro", A, "r", [], "POST", "upload", name="n8", fname="n8", fmt="mdmf"),
+        q("fix-9a727df/put-new-sdmf-below-ro-link", "through-ro", R, "w", ["n1", "n8"], "PUT", "", fmt="sdmf"),
+        q("fix-9a727df/post-upload-new-on-ro-link", "target-ro", R, "w", ["n1"], "POST", "upload", name="n8", fname="n8", fmt="sdmf"),
+        # --- C41-c: the name is taken by an immutable (CHK / LIT) child + mutable format (FileNodeHandler -> ReplaceMeMixin)
+        q("C41-c/put-over-chk-sdmf", "root-ro", A, "r", ["n2"], "PUT", "", fmt="sdmf"),
+        q("C41-c/put-over-lit-mdmf", "root-ro", A, "r", ["n3"], "PUT", "", fmt="mdmf"),
+        q("C41-c/post-upload-name-chk", "root-ro", A, "r", [], "POST", "upload", name="n2", fname="n2", fmt="sdmf"),
+        q("C41-c/post-upload-to-chk-child", "root-ro", A, "r", ["n2"], "POST", "upload", fname="n2", fmt="sdmf"),
+        q("C41-c/post-upload-name-lit-on-ro-link", "target-ro", R, "w", ["n1"], "POST", "upload", name="n3", fname="n3", fmt="mdmf"),
+        q("C41-c/put-over-chk-below-ro-link", "through-ro", R, "w", ["n1", "n2"], "PUT", "", fmt="sdmf"),
+        q("C41-c/put-over-chk-in-immutable-dir", "root-ro", I, "w", ["n1"], "PUT", "", fmt="sdmf"),
+        # --- C41-b: relink out of a read-only directory into a different writeable one (by cap, by cap/path)
+        q("C41-b/relink-file-to-cap", "root-ro", A, "r", [], "POST", "relink", name="n2", to="n7", todir=[OTHER, "w", []]),
+        q("C41-b/relink-dir-to-path", "root-ro", A, "r", [], "POST", "relink", name="n1", to="n7", todir=[OTHER, "w", ["n1"]]),
+        q("C41-b/relink-mutable-on-ro-link", "target-ro", R, "w", ["n1"], "POST", "relink", name="n4", to="n6", todir=[D, "w", []]),
+        q("C41-b/relink-below-ro-link", "through-ro", R, "w", ["n1", "n5"], "POST", "relink", name="n1", to="n6", todir=[OTHER, "w", []]),
+        q("C41-b/relink-out-of-immutable-dir", "root-ro", I, "w", [], "POST", "relink", name="n1", to="n6", todir=[OTHER, "w", []]),
+        q("C41-b/relink-same-name", "root-ro", A, "r", [], "POST", "relink", name="n3", todir=[D, "w", []]),
+        q("C41-b/rename-in-place", "root-ro", A, "r", [], "POST", "rename", name="n2", to="n7"),
+        q("C41-b/relink-rw-source-to-ro-dest", "rw", R, "w", ["n2"], "POST", "relink", name="n2", to="n7", todir=[OTHER, "r", []]),
+        # --- C41-a: a writeable node of the same object is alive in the gateway (the harness holds one): responses and
+        #     decisions through the read cap must not change
+        ("get", A, "r", [], "json"), ("get", A, "r", [], "uri"), ("get", A, "r", [], "info"), ("get", A, "r", [], "html"),
+        ("get", R, "r", ["n2"], "json"), ("get", R, "w", ["n1"], "json"), ("get", R, "w", ["n1", "n5"], "json"),
+        ("get", M, "r", [], "json"), ("get", M, "r", [], "uri"), ("get", R, "w", ["n1", "n4"], "json"), ("get", R, "r", [], "readonly-uri"),
+        q("C41-a/delete-child", "root-ro", A, "r", ["n2"], "DELETE", ""),
+        q("C41-a/mkdir", "root-ro", A, "r", [], "POST", "mkdir", name="n8"),
+        q("C41-a/put-new-chk", "root-ro", A, "r", ["n8"], "PUT", ""),
+        q("C41-a/overwrite-mutable-by-readcap", "root-ro", M, "r", [], "PUT", ""),
+        q("C41-a/overwrite-mutable-below-ro-link", "through-ro", R, "w", ["n1", "n4"], "PUT", ""),
+        q("C41-a/post-upload-mutable-on-ro-link-child", "through-ro", R, "w", ["n1", "n4"], "POST", "upload", fname="n4"),
+        q("C41-a/set-children", "root-ro", A, "r", [], "POST", "set_children", kids=[["n8", F, False]]),
+        q("C41-a/set-uri", "root-ro", A, "r", [], "POST", "uri", name="n8", cap=[F, "r"]),
+        q("C41-a/unlink", "target-ro", R, "w", ["n1"], "POST", "unlink", name="n2"),
+        q("C41-a/delete-below-ro-link", "through-ro", R, "w", ["n1", "n2"], "DELETE", ""),
+        q("C41-a/mkdir-p-below-ro-link", "through-ro", R, "w", ["n1", "n8", "n7"], "PUT", ""),
+        q("C41-a/verify-cap-put", "root-ro", A, "v", ["n8"], "PUT", ""),
+        # --- the same shapes with full authority: accepted (the harness can tell acceptance from refusal)
+        q("rw/relink-file-to-cap", "rw", A, "w", [], "POST", "relink", name="n3", to="n7", todir=[OTHER, "w", []]),
+        q("rw/put-new-sdmf", "rw", A, "w", ["n8"], "PUT", "", fmt="sdmf"),
+        q("rw/put-over-chk-sdmf", "rw", R, "w", ["n2", "n2"], "PUT", "", fmt="sdmf"),
+        q("rw/delete-ro-link-itself", "rw", R, "w", ["n1"], "DELETE", ""),
+        ("get", A, "w", [], "json"),
+    ]
 
 
 T_TOK = {"": "none", "mkdir": "mkdir", "mkdir-with-children": "mkdirwc", "mkdir-immutable": "mkdirimm", "upload": "upload",
@@ -707,26 +807,46 @@ def own_write_objects(r):
     return own
 
 
-def run_scenario(ctx, seed, nreq, fixed_model, stop_at=None):
+def run_scenario(ctx, seed, nreq, fixed_model, stop_at=None, script=None):
+    """script = None: random tree + random requests; otherwise the fixed corpus (fixed tree, fixed requests)."""
     import random
     import grid
     rng = random.Random("c41-%d" % seed)
-    with grid.Runtime(seed=seed, policy=rng.choice(["random", "fifo", "random"])) as rt:
+    with grid.Runtime(seed=seed, policy="fifo" if script is not None else rng.choice(["random", "fifo", "random"])) as rt:
         g = grid.Grid(grid.fresh_dir("c41"), rt, num_servers=3, k=1, happy=1, n=2, max_segment_size=64)
         try:
             c = g.clients[0]
             web = make_web(c, rt, os.path.join(g.basedir, "webtmp"))
-            W = build_world(ctx, rng, rt, g)
+            W = build_fixed_world(rt, g) if script is not None else build_world(ctx, rng, rt, g)
             mir = W.mirror()
             lines, cases, impl = [], [], []
-            for idx in range(nreq):
-                want = rng.choice(["root-ro", "root-ro", "through-ro", "through-ro", "target-ro", "rw", "rw", "rw"])
-                if rng.random() < 0.2:
-                    do_get(ctx, rng, rt, g, web, W, mir, seed, idx, lines, cases, impl)
-                    continue
-                r = gen_relink_focus(rng, W, mir) if rng.random() < 0.14 else None
-                if r is None:
-                    r = gen_request(rng, W, mir, want)
+            for idx in range(len(script) if script is not None else nreq):
+                if script is not None:
+                    item = script[idx]
+                    ctx.count("corpus-requests")
+                    if item[0] == "get":
+                        exec_get(ctx, rt, g, web, W, mir, seed, idx, lines, cases, impl, item[1], item[2], list(item[3]), item[4])
+                        continue
+                    r = dict(item[1])
+                    r.setdefault("repl", "yes")
+                    _, cls = classify(mir, r["root"], r["auth"], r["path"], r["meth"], r["t"])
+                    r.update(ro=cls != "rw", root_ro=cls == "root-ro", cls=cls, corpus=item[0])
+                    if item[2] is not None and cls != item[2]:
+                        # the tree as read back through the gateway is not the tree that was built (e.g. a link stored with
+                        # the read cap only is listed as writeable): report, and keep the class the corpus was built for
+                        ctx.violation("corpus case %s: built as %s, but the tree read back through the gateway makes it %s "
+                                      "(a link stored read-only is listed with write authority, or vice versa)" % (item[0], item[2], cls),
+                                      {"scenario": seed, "index": idx, "request": r}, "tree-read-back-with-different-authority:%s->%s" % (item[2], cls))
+                        cls = item[2]
+                        r.update(ro=cls != "rw", root_ro=cls == "root-ro", cls=cls)
+                else:
+                    want = rng.choice(["root-ro", "root-ro", "through-ro", "through-ro", "target-ro", "rw", "rw", "rw"])
+                    if rng.random() < 0.2:
+                        do_get(ctx, rng, rt, g, web, W, mir, seed, idx, lines, cases, impl)
+                        continue
+                    r = gen_relink_focus(rng, W, mir) if rng.random() < 0.14 else None
+                    if r is None:
+                        r = gen_request(rng, W, mir, want)
                 nold = len(mir)
                 meth, url, body, ctype = request_bytes(W, r, idx)
                 line = model_line(fixed_model, W, mir, r)
@@ -809,8 +929,13 @@ def run_scenario(ctx, seed, nreq, fixed_model, stop_at=None):
                 mir = mir2
                 if stop_at is not None and idx >= stop_at:
                     break
+            for _ in range(3):
+                cache_probe(ctx, rng, c, W, mir, seed, lines, cases, impl)
             # check & repair through a read-only cap of a damaged mutable file must not write (ticket #625)
             repair_probe(ctx, rng, rt, g, web, W, seed)
+            if script is not None:
+                for cs in cases:
+                    cs["corpus"] = True
             return lines, cases, impl
         finally:
             g.close()
@@ -828,10 +953,16 @@ def do_get(ctx, rng, rt, g, web, W, mir, seed, idx, lines, cases, impl):
         seg = rng.choice(sorted(ent))
         path.append(seg)
         a = ent[seg][0]
-    chain = ref_resolve(mir, root, auth, path)
-    final_ro = not chain[-1][1]
     isdir = mir[a][0] in ("md", "id")
     kind = rng.choice(["json", "json", "info", "uri", "readonly-uri", "html"] if isdir else ["json", "info", "uri", "readonly-uri"])
+    exec_get(ctx, rt, g, web, W, mir, seed, idx, lines, cases, impl, root, auth, path, kind)
+
+
+def exec_get(ctx, rt, g, web, W, mir, seed, idx, lines, cases, impl, root, auth, path, kind):
+    chain = ref_resolve(mir, root, auth, path)
+    final_ro = not chain[-1][1]
+    a = chain[-1][0]
+    isdir = mir[a][0] in ("md", "id")
     url = b"/uri/" + quote(W.cap(root, auth)).encode() + b"".join(b"/" + s.encode() for s in path)
     if kind == "html":
         url += b"/"
@@ -862,6 +993,36 @@ def do_get(ctx, rng, rt, g, web, W, mir, seed, idx, lines, cases, impl):
         cases.append(dict(case, kind="caps", own="%d.%s" % own if own else None))
 
 
+def cache_probe(ctx, rng, c, W, mir, seed, lines, cases, impl):
+    """function-level correspondence for NodeMaker.create_from_cap's node cache: a history of lookups by write and read caps of
+    the same objects while earlier nodes are still alive, with collections in between; observable = writeable or not"""
+    import gc
+    held, ops, got = [], [], []
+    for _ in range(rng.randrange(4, 12)):
+        if rng.random() < 0.18:
+            held.clear()
+            gc.collect()
+            ops.append("e")
+            continue
+        a = rng.randrange(len(W.objs))
+        auth = rng.choice(["w", "r"])
+        node = c.create_node_from_uri(W.cap(a, auth))
+        held.append(node)
+        ops.append("c.%d.%s" % (a, auth))
+        writeable = (not node.is_unknown()) and (not node.is_readonly())
+        got.append("w" if writeable else "r")
+        if writeable and (auth != "w" or mir[a][0] not in ("md", "mf")):
+            ctx.violation("create_node_from_uri(%s cap of object %d) returned a writeable node" % ("read" if auth == "r" else "immutable", a),
+                          {"scenario": seed, "probe": "cache", "ops": list(ops)}, "readcap-yields-writeable-node")
+    if not got:
+        return
+    lines.append("cache %s %s" % (grid_token(mir), ",".join(ops)))
+    impl.append(",".join(got))
+    cases.append({"scenario": seed, "kind": "cache", "ops": ops})
+    ctx.count("cache-histories")
+    ctx.case(("cache", tuple(o.split(".")[-1] for o in ops)))
+
+
 def repair_probe(ctx, rng, rt, g, web, W, seed):
     from allmydata.storage.shares import get_share_file
     mfs = [i for i, o in enumerate(W.objs) if o["kind"] == "mf"]
@@ -884,6 +1045,11 @@ def repair_probe(ctx, rng, rt, g, web, W, seed):
                       {"scenario": seed, "probe": "repair", "status": st}, "repair-through-readonly-wrote")
 
 
+def common_infra(msg):
+    import common
+    return common.InfraError(msg)
+
+
 def quiet_twisted_log():
     """errors rendered into HTTP responses are also logged by Twisted; keep them off stderr"""
     from twisted.logger import globalLogBeginner
@@ -904,6 +1070,17 @@ def run(ctx):
         nscen = ctx.budget(8, 150)
         plan = [(ctx.rng.randrange(1 << 30), 60) for _ in range(nscen)]
     all_lines, all_cases, all_impl = [], [], []
+    corpus_only = bool(os.environ.get("VERIF_CORPUS_ONLY"))
+    is_corpus_replay = bool(ctx.replay and isinstance(ctx.replay.get("case"), dict) and ctx.replay["case"].get("scenario") == 4141)
+    if not ctx.replay or is_corpus_replay:
+        # fixed corpus first (independent of VERIF_SEED): one request per known mechanism on a fixed tree
+        lines, cases, impl = run_scenario(ctx, 4141, 0, fixed_model, script=corpus_script())
+        all_lines += lines
+        all_cases += cases
+        all_impl += impl
+    if corpus_only or is_corpus_replay:
+        plan = []
+        ctx.note("VERIF_CORPUS_ONLY: random families skipped")
     for seed, nreq in plan:
         if len(ctx.violations) >= 50:
             break          # the report is capped at 50 anyway
@@ -914,6 +1091,10 @@ def run(ctx):
     outs = ctx.model(all_lines)
     if outs is not None:
         for case, im, out in zip(all_cases, all_impl, outs):
+            if case["kind"] == "cache":
+                if out != im:
+                    ctx.disagree("NodeMaker.create_from_cap history: writeable / read-only node per lookup", case, im, out)
+                continue
             if case["kind"] == "caps":
                 model_caps = "-" if out in ("-", "none") else (",".join(sorted(set(
                     x for x in out.split(",") if not x.endswith(".v") and not (case["get"] in ("html", "info") and x == case.get("own"))))) or "-")
